@@ -375,8 +375,11 @@ fn run_parser_on(src: impl std::io::Read + Clone + 'static, delivered: impl Fn()
     let items = std::cell::RefCell::new(vec![]);
     let fin = catch(|| {
         let mut reader = DeferredReader::from_read(src.clone());
-        if chunk < crate::eng_cnf::CTOR_BOXED {
+        if chunk < crate::eng_cnf::SNIFF_BASE {
             reader.set_chunk_size(chunk);
+        } else if chunk < crate::eng_cnf::CTOR_BOXED {
+            let k = chunk - crate::eng_cnf::SNIFF_BASE;
+            let _ = reader.request(if k == 1000 { usize::MAX / 4 } else { k });
         }
         let made = if chunk == crate::eng_cnf::CTOR_FROM_READ {
             Parser::from_read(src.clone(), Config::default())
@@ -669,8 +672,16 @@ pub fn run_case(line: &str) -> (String, Vec<String>) {
     let base = run_parser(mk(scheds[0].1.clone()), scheds[0].2);
     let base_text = base.text(false);
     let mut variant_note = String::new();
+    let free: Option<RunObs> = if fault { Some(run_parser(SchedSource::new(c.data.clone(), false, vec![]), 16384)) } else { None };
     for (name, ev, chunk) in scheds.iter().skip(1) {
         let o = run_parser(mk(ev.clone()), *chunk).text(false);
+        if fault && name.starts_with("sniff") {
+            if o.ends_with("E:panic") {
+                fails.push(format!("C05:parser panicked under schedule {}", name));
+            }
+            fails.extend(crate::eng_cnf::fault_variant_oracle(&format!("|VARIANT:{}={}", name, o), &free.as_ref().unwrap().text(false)));
+            continue;
+        }
         if o != base_text {
             fails.push(format!("C01:result depends on the read schedule: one-shot={} {}={}", base_text, name, o));
             variant_note = format!("|VARIANT:{}={}", name, o.chars().take(160).collect::<String>());
@@ -690,7 +701,8 @@ pub fn run_case(line: &str) -> (String, Vec<String>) {
     }
     // ---- C04: a failing source ends in an I/O error (or the fault-free run's own syntax error)
     if fault {
-        let free = run_parser(SchedSource::new(c.data.clone(), false, vec![]), 16384);
+        let free = free.unwrap();
+        fails.extend(crate::eng_cnf::fault_variant_oracle(&variant_note, &free.text(false)));
         let n = base.items.len();
         let prefix_ok = (0..n).all(|i| i < free.items.len() && free.items[i].0 == base.items[i].0);
         if base.fin == "END" {
